@@ -546,17 +546,26 @@ def g_add_port_mirror_service(w, rng, st):
     a, b, cp = rng.choice(free)
     allif = all_ifaces(st)
     src = rng.choice(allif)[1] if allif and rng.random() < 0.7 else rng.choice(['p1', 'HundredGigE0/0/0/5'])
-    return {'name': pick_name(rng, W.SVC_NAMES, existing), 'to': {'node': a, 'if': b}, 'from': src,
-            'vlan': rng.choice([None, '100']), 'dir': rng.choice(['Both', 'RX_Only', 'TX_Only']),
-            'id': maybe_id(w, rng, st)}
+    s = {'name': pick_name(rng, W.SVC_NAMES, existing), 'to': {'node': a, 'if': b}, 'from': src,
+         'vlan': rng.choice([None, '100']), 'dir': rng.choice(['Both', 'RX_Only', 'TX_Only']),
+         'id': maybe_id(w, rng, st)}
+    if rng.random() < 0.3:
+        s['site'] = rng.choice(W.SITES)        # a declared site (read back; validate() must hold the slice to it)
+    return s
 
 
 @op('add_port_mirror_service', 'add')
 def x_add_port_mirror_service(w, s, st, info):
     from fim.slivers.network_service import MirrorDirection
+    kw = {'site': s['site']} if s.get('site') else {}
     ns = w.topo.add_port_mirror_service(name=s['name'], from_interface_name=s['from'], to_interface=get_iface(w, s['to']),
                                         from_interface_vlan=s['vlan'], direction=MirrorDirection[s['dir']],
-                                        node_id=s['id'])
+                                        node_id=s['id'], **kw)
+    if kw and s.get('op') != 'failing':
+        got = ns.get_property('site')
+        if got != s['site']:
+            w.flag('C02', 'prop_set_get', {'kind': 'service', 'name': 'site', 'via': 'creation', 'type': 'PortMirror'},
+                   'port-mirror service created with site=%r reads back %r' % (s['site'], got))
     w.handles[s['name']] = ns
     info['handles'] = [ns]
 
@@ -588,12 +597,13 @@ def g_connect_interface(w, rng, st):
     a, b, cp = rng.choice(free)
     if 'guardrail_on_connect' in w.avoid and st.typ(sv) == 'L2PTP' and st.typ(cp) == 'SharedPort':
         return None
-    return {'svc': st.name(sv), 'iface': {'node': a, 'if': b}}
+    return {'svc': st.name(sv), 'iface': {'node': a, 'if': b}, 'fresh': rng.random() < 0.3}
 
 
 @op('connect_interface', 'add')
 def x_connect_interface(w, s, st, info):
-    sv = get_service(w, s['svc'])
+    # some calls go through a freshly looked-up object although the session keeps one (two objects of one service)
+    sv = get_service(w, s['svc'], fresh=bool(s.get('fresh')))
     note_handle(w, info, sv, st)
     sv.connect_interface(get_iface(w, s['iface']))
 
@@ -1533,6 +1543,10 @@ def failing_variants(w, rng, st):
         out.append({'template': 'set_property_bad', 'pos': kind, 'call': 'set_properties_raw', 'kind': kind, 'ref': ref,
                     'vals': {'labels': 12}, 'order': ['labels'], 'single': True})
     # ---- peering / removal of absent things
+    peerable = [x for x in tops if st.typ(x) in ('L3VPN', 'FABNetv4', 'FABNetv6', 'L2STS', 'L2Bridge')]
+    if peerable:
+        x = st.name(rng.choice(peerable))
+        out.append({'template': 'peer_with_itself', 'call': 'peer', 'a': x, 'b': x})
     if len(tops) >= 2:
         a, b = rng.sample(tops, 2)
         out.append({'template': 'unpeer_not_peered', 'call': 'unpeer', 'a': st.name(a), 'b': st.name(b)})
